@@ -15,6 +15,7 @@ RULE = ("cross product of (every valid metric class + the 28 diagrams) x (19 -x 
 RULE += " " + 'Shape noobs has no valid case at all. Every diagram/map/rank/impact figure and a sixth of the standard figures are rendered in memory (canvas.draw): a figure that cannot be drawn is a crash.'
 RULE += " " + 'Shapes x0pit (discrete mass, different coverage), every bin type with 1 and 3 thresholds, maprank / rank on five files.'
 RULE += " " + "Rounds 9-10: NetCDF units '%'; shape dry (a station that only observes 0, a lead time with flat forecasts) drawn along location/leadtime/elev for every metric and diagram."
+RULE += " " + 'Rounds 11-12: shape large (12 600 cases) for every diagram.'
 ASSUMPTIONS = ["matplotlib Agg backend; every diagram / map / rank / impact figure and a sixth of the standard-metric figures are rendered in memory (canvas.draw); files are written by C17",
                "cartopy is absent, so map types use the plain-axes path"]
 REQUIRED_COUNTERS = ["runs", "ok", "error_exit"]
